@@ -227,6 +227,44 @@ def deposed_runahead(m, w, old=N1, new=N2, third=N3, tail=3, newk=2):
     return w
 
 
+def split_vote5(m, w, cand=N1):
+    """5 voters. `cand` campaigned in term 1 and got one foreign vote (n2), no majority; the link to n2 is cut since.
+    Only n3 is still connected to `cand`; n3 has not heard the term-1 request (lost). The explorer lets `cand` time
+    out again: whatever it collects in term 2 must be a majority of term-2 votes."""
+    ids = [n for n, _ in w.nodes]
+    n2, n3 = ids[1], ids[2]
+    w = m.connect_all(w, only=[cand, n2, n3])
+    w = m.cut(w, cand, n3)
+    w = m.do(w, ('T', cand, m.cfg.tmin + 0.001))
+    w = m.do(w, ('D', cand, n2), ('D', n2, cand))
+    w = m.cut(w, cand, n2)
+    w = m.do(w, ('R', cand, n3, 'free'))
+    w = m.drain(w, only=[cand, n3], ticks=False)
+    if m.summary(w, cand).leader_flag:
+        m.seed_shape_ok = False
+    return w
+
+
+def lateack_resend(m, w, leader=N1, other=N2, slow=N3, k=4):
+    """`slow` receives everything but its answers to the leader are held back from the start (the leader's match
+    index for it is 0, its next index optimistic). k commands are committed (leader + other) and stored by `slow`.
+    The explorer delivers the held answers: the first one pulls the leader's next index back and the leader sends
+    again, in small batches, what `slow` already stores."""
+    hold = ((slow, leader),)
+    w = m.connect_all(w)
+    w = m.do(w, ('T', leader, m.cfg.tmin + 0.001))
+    w = m.drain(w, skip_links=hold)
+    for _ in range(k):
+        w = m.do(w, ('S', leader, 'free'))
+    w = m.do(w, ('Z', leader))
+    for _ in range(4):
+        w = m.do(w, ('T', leader, m.cfg.period + 0.001))
+        w = m.drain(w, skip_links=hold)
+    if m.summary(w, slow).commit < 2 + k or not w.queue(slow, leader):
+        m.seed_shape_ok = False
+    return w
+
+
 def late_vote5(m, w, cand=N1):
     """5 voters. `cand` wins its election with the votes of n2 and n3; the vote of n4 is still in flight and n5 never
     heard the request. Then `cand` is cut off from n2, n3 and n5 (only the link to n4 is left, with the late vote on it)."""
@@ -731,7 +769,7 @@ def candidates(m, w, who=(N1, N2)):
     return w
 
 
-SEEDS = dict(late_vote5=late_vote5, m_lagsnap_added=m_lagsnap_added, deposed_runahead=deposed_runahead, forwarded_acked=forwarded_acked, m_readd_lateack=m_readd_lateack, vote_requested=vote_requested, forwarded_stale=forwarded_stale, reelected_cache3=reelected_cache3, deposed_obs=deposed_obs, voted=voted, stalled_old_code=stalled_old_code, reelected5=reelected5, stale_reset5=stale_reset5, stale_vote5=stale_vote5, stale_snapshot=stale_snapshot, ahead_full=ahead_full, fig8_full=fig8_full, candidates=candidates, battery_lagsnap=battery_lagsnap, ahead=ahead, lagging_newleader=lagging_newleader, m_deposed=m_deposed, split=split, version_snap=version_snap, fresh=fresh, steady=steady, lagging=lagging, lagging_snap=lagging_snap, deposed=deposed,
+SEEDS = dict(split_vote5=split_vote5, lateack_resend=lateack_resend, late_vote5=late_vote5, m_lagsnap_added=m_lagsnap_added, deposed_runahead=deposed_runahead, forwarded_acked=forwarded_acked, m_readd_lateack=m_readd_lateack, vote_requested=vote_requested, forwarded_stale=forwarded_stale, reelected_cache3=reelected_cache3, deposed_obs=deposed_obs, voted=voted, stalled_old_code=stalled_old_code, reelected5=reelected5, stale_reset5=stale_reset5, stale_vote5=stale_vote5, stale_snapshot=stale_snapshot, ahead_full=ahead_full, fig8_full=fig8_full, candidates=candidates, battery_lagsnap=battery_lagsnap, ahead=ahead, lagging_newleader=lagging_newleader, m_deposed=m_deposed, split=split, version_snap=version_snap, fresh=fresh, steady=steady, lagging=lagging, lagging_snap=lagging_snap, deposed=deposed,
              deposed_snap=deposed_snap, deposed_twice=deposed_twice, pending=pending, reconnect_pipeline=reconnect_pipeline,
              forwarded=forwarded, fig8=fig8)
 
